@@ -307,7 +307,80 @@ func genScenario(c *rig.Ctx, i int) Case {
 	errReply := func() Op {
 		return fresh(Op{Op: "setlimit", Err: rig.Pick(g.c.Rng, []string{"timeout", "limiter server unavailable"}), Accept: g.n(2) == 0, Limit: g.limit()})
 	}
-	switch g.n(9) {
+	switch g.n(12) {
+	case 9: // the global strategy is switched off and on again before the goroutines of the stopped wrapper get to run
+		cs.LateStops = true
+		g.kindMI = true
+		ops = append(ops, sch("globalCount"))
+		ready()
+		ops = append(ops, Op{Op: "reconcile"})
+		for k := 0; k < g.n(3); k++ { // each rebuild inside the wrapper leaves one more goroutine waiting for its stop
+			ops = append(ops, sch("globalAllocate"), Op{Op: "answer", Named: true, Item: &Item{Strategy: "globalAllocate", MI: p64(g.limit())}})
+			ops = append(ops, sch("globalCount"), Op{Op: "reconcile"})
+		}
+		for k := 0; k < 1+g.n(2); k++ {
+			ops = append(ops, sch(rig.Pick(g.c.Rng, []string{"local", ""})))
+			ops = append(ops, sch("globalCount"), Op{Op: "reconcile"})
+			for j := 0; j < 1+g.n(3); j++ {
+				maybe(50, func() { ops = append(ops, Op{Op: "event"}) })
+				ops = append(ops, g.tickOp(70))
+			}
+		}
+	case 10: // the schema's TYPE changes while a remote limiter exists: error replies, answers and requests in the window
+		cs.KindChange = true
+		strat := rig.Pick(g.c.Rng, []string{"globalCount", "globalCount", "globalAllocate"})
+		sync := func() {
+			if strat == "globalCount" {
+				ops = append(ops, Op{Op: "reconcile"})
+			} else {
+				ops = append(ops, Op{Op: "answer", Named: true, Item: g.item()})
+			}
+		}
+		ops = append(ops, sch(strat))
+		ready()
+		sync()
+		maybe(50, func() { ops = append(ops, fresh(Op{Op: "setlimit", Accept: true, Limit: g.limit()})) })
+		for k := 0; k < 1+g.n(3); k++ {
+			g.kindMI = !g.kindMI
+			maybe(30, func() { strat = rig.Pick(g.c.Rng, []string{"globalCount", "globalAllocate"}) })
+			ops = append(ops, sch(strat))
+			maybe(70, func() { ops = append(ops, errReply()) })
+			maybe(40, func() { ops = append(ops, g.tickOp(30)) })
+			sync()
+			maybe(60, func() { ops = append(ops, errReply()) })
+			maybe(50, func() { ops = append(ops, fresh(Op{Op: "setlimit", Accept: true, Limit: g.limit()})) })
+		}
+	case 11: // requests in flight while the item's strategy changes (answered by the server, or the schema's own)
+		g.kindMI = true
+		strat := rig.Pick(g.c.Rng, []string{"globalCount", "globalAllocate", "globalAllocate"})
+		ops = append(ops, sch(strat))
+		ready()
+		grant := func() {
+			if strat == "globalCount" {
+				ops = append(ops, Op{Op: "reconcile"})
+				maybe(85, func() {
+					ops = append(ops, fresh(Op{Op: "setlimit", Accept: true, Limit: rig.Pick(g.c.Rng, []int64{maxI32, *g.cur.GMI, g.limit()})}))
+				})
+			} else {
+				st := rig.Pick(g.c.Rng, []string{"globalAllocate", "globalAllocate", "", "local", "globalCount", "bogus"})
+				ops = append(ops, Op{Op: "answer", Named: true, Item: &Item{Strategy: st, MI: p64(rig.Pick(g.c.Rng, []int64{maxI32, *g.cur.GMI, g.limit()}))}})
+			}
+		}
+		grant()
+		for k := 0; k < 2+g.n(4); k++ {
+			for j := 0; j < 1+g.n(6); j++ {
+				ops = append(ops, g.acquire())
+				maybe(25, func() { ops = append(ops, g.release()) })
+			}
+			maybe(35, func() {
+				strat = rig.Pick(g.c.Rng, []string{"globalCount", "globalAllocate"})
+				s := g.cur
+				s.Strategy = strat
+				g.cur = s
+				ops = append(ops, Op{Op: "schema", Schema: &s})
+			})
+			grant()
+		}
 	case 6, 7: // requests in flight across a change of the global limit (resize in place must keep counting them)
 		g.kindMI = true
 		strat := rig.Pick(g.c.Rng, []string{"globalCount", "globalCount", "globalAllocate"})
